@@ -253,18 +253,19 @@ def cond_defs(func, use):
     return out[:3]
 
 
-def struct_invariants(func):
+def struct_invariants(func, subst=None):
     """Declared invariants of struct lbuf / struct sbuf for pointer parameters (each is an
-    obligation of rule I1 on the writers of the fields)."""
+    obligation of rule I1 on the writers of the fields).  With a substitution: the same
+    relations over the current values (for loop heads)."""
     out = []
     for p in func.params:
         nm = p["name"]
         if p["ty"] == "struct lbuf *":
-            f = lambda x: Lin({"%s->%s" % (nm, x): 1})
+            f = lambda x: (subst.get("%s->%s" % (nm, x)) if subst else None) or Lin({"%s->%s" % (nm, x): 1})
             out += [f("ln_n"), f("ln_sz") - f("ln_n"), f("hist_u"), f("hist_n") - f("hist_u"),
                     f("hist_sz") - f("hist_n"), f("ln_sz"), f("hist_sz"), f("hist_n")]
         if p["ty"] == "struct sbuf *":
-            f = lambda x: Lin({"%s->%s" % (nm, x): 1})
+            f = lambda x: (subst.get("%s->%s" % (nm, x)) if subst else None) or Lin({"%s->%s" % (nm, x): 1})
             out += [f("s_n"), f("s_sz") - f("s_n")]
     return out
 
